@@ -50,7 +50,7 @@ def rand_soft(rng, seq, role="constraint", allow=None):
             return dict(kind="pattern", pattern="AA", location=None)
         return dict(kind="stop", location=rand_loc(rng, n, codon=True), table=rng.choice(["Standard", "Bacterial"]))
     if k == "kmers":
-        return dict(kind="kmers", k=rng.choice([3, 4, 5]), location=None if whole else rand_loc(rng, n, 6, strands=(1, 0)),
+        return dict(kind="kmers", k=rng.choice([2, 3, 4, 5]), location=None if whole else rand_loc(rng, n, 6, strands=(1, 0)),
                     rc=rng.random() < 0.5)
     if k == "terminal":
         w = rng.randint(2, max(2, n // 2))
